@@ -30,6 +30,7 @@ type Outcome struct {
 	GenErr   error
 	GenPanic string
 	Shape    *node
+	IRIssues *IRIssues
 	Types    []string // names of the Go types the generator declares
 	Files    map[string][]byte
 }
@@ -156,7 +157,7 @@ func Run(fs FileSet, o RunOpts) (out *Outcome) {
 			out.GenErr = err
 			return
 		}
-		out.Shape = ShapeIR(g)
+		out.Shape, out.IRIssues = ShapeIR(g)
 		for n := range g.Types() {
 			out.Types = append(out.Types, n)
 		}
